@@ -465,7 +465,7 @@ class ActionTypeHint(Action):
             return not (
                 isinstance(v, (str, Namespace))
                 or is_subclass_spec(v)
-                or (isinstance(v, list) and any(is_subclass_spec(e) for e in v))
+                or (isinstance(v, (list, tuple)) and any(is_subclass_spec(e) for e in v))
                 or (isinstance(v, dict) and any(is_subclass_spec(e) for e in v.values()))
             )
 
